@@ -275,6 +275,11 @@ def jobs(tier):
                 out.append(dict(name='fail/%s/n=%d/bs=%s/cache=%d/H=%d/slots=%d' % (op, n, bs, cache, H, ns),
                                 func='history', params=dict(op=op, n=n, bs=bs, cache=cache, H=H, nslots=ns, fail=True),
                                 budget=240 if q else 3000, per_path=20, validate_every=1 if q else 4))
+    # iterators sharing the fromdicts spill file still yield the complete sequence (schedule harness of C01)
+    for kind in ('fromdicts-generator', 'fromdicts-generator-noheader', 'csv-sort-pipeline'):
+        out.append(dict(name='spill-interleaved/%s/R=3/L=%d' % (kind, 7 if q else 8), module='props.c01', func='io_view',
+                        params=dict(kind=kind, R=3, L=7 if q else 8, nits=2), budget=240 if q else 3000, per_path=20,
+                        validate_every=1 if q else 4))
     for n in (2, 3):
         for (H, ns) in ([(4, 2)] if q else [(6, 2), (5, 3)]):
             out.append(dict(name='fromdicts-generator/n=%d/H=%d/slots=%d' % (n, H, ns), func='fromdicts_history',
